@@ -137,10 +137,16 @@ CLASSES = {n: _ClassV(n) for n in ('AbstractConstraint', 'AbstractConstraintSet'
                                    'ConstraintsExclusion', 'SingleValueConstraint', 'ValueRangeConstraint')}
 
 
-def _set_model():
+def _set_model(initial=()):
     def add(ex, self, x):
         self.fields['members'].items.append(x)
-    return Obj('set', {'members': Tup([], 'list')}, {'add': add}, name='valueMap')
+
+    def update(ex, self, other):
+        self.fields['members'].items.extend(other.fields['members'].items)
+    return Obj('set', {'members': Tup(list(initial), 'list')}, {'add': add, 'update': update}, name='valueMap')
+
+
+ANCESTOR = Obj('ConstraintSet', {}, name='ancestor')
 
 
 def _ctor(ex, *values):
@@ -149,32 +155,46 @@ def _ctor(ex, *values):
 
 def _cset(n):
     def mk(ex, env):
-        return Obj('ConstraintSet', {'_values': Tup([_cobj(i) for i in range(n)]), '_valueMap': _set_model(),
+        return Obj('ConstraintSet', {'_values': Tup([_cobj(i) for i in range(n)]), '_valueMap': _set_model([ANCESTOR]),
                                      '_extensionNarrows': env['narrows'], '__class__': FnV(_ctor, 'self.__class__')},
                    name='self')
     return mk
 
 
 NEW = _cobj(9)
+
+
+def _intersection_ctor(ex, *values):
+    return Obj('ConstraintsIntersection', {'_values': Tup(list(values))}, name='intersection')
+
+
 for n in range(3):
     same = ' and '.join(['len(last_args("self._derive")[0]) == %d' % (n + 1)] +
                         ['last_args("self._derive")[0][%d] is self._values[%d]' % (i, i) for i in range(n)] +
                         ['last_args("self._derive")[0][%d] is value' % n])
+    appends = '(%s) and result is last_result("self._derive")' % same
+    wraps = ('result is last_result("ConstraintsIntersection") and len(result._values) == 2 and result._values[0] is self '
+             'and result._values[1] is value')
     CONTRACTS.append(Contract(
         id='type.constraint::AbstractConstraintSet.__add__[%d]' % n, file=F, qual='AbstractConstraintSet.__add__', properties=P,
         params=dict(narrows=PBool(), self=PDerived(_cset(n)), value=PConst(NEW)), globals=dict(CLASSES),
-        calls={'self._derive': lambda ex, values: _ctor(ex, *values.items)},
-        ensures=[('keeps-every-operand-and-appends', same), ('returns-derived', 'result is last_result("self._derive")')],
-        note='set + constraint: all %d operands kept in order, the new one appended, even if it compares equal to one '
-             'of them (equality of constraints is by operands, not by kind)' % n))
+        calls={'self._derive': lambda ex, values: _ctor(ex, *values.items), 'ConstraintsIntersection': _intersection_ctor},
+        ensures=[('narrowing-set-or-empty-set-appends', '(narrows or %s) ==> (%s)' % (n == 0, appends)),
+                 ('non-narrowing-set-is-intersected-with-the-new-constraint',
+                  '(not narrows and %s) ==> (%s)' % (n > 0, wraps))],
+        note='set + constraint: an intersection (and the empty set) keeps all %d operands in order and appends the new one, '
+             'even if it compares equal to one of them; a union is not given one more alternative (that would widen the '
+             'type) but intersected with the new constraint' % n))
     CONTRACTS.append(Contract(
         id='type.constraint::AbstractConstraintSet._derive[%d]' % n, file=F, qual='AbstractConstraintSet._derive', properties=P,
         params=dict(narrows=PBool(), self=PDerived(_cset(n)),
                     values=PConst(Tup([_cobj(20 + i) for i in range(n + 1)]))),
         ensures=[('same-class-all-values', 'len(result._values) == %d and ' % (n + 1) +
                   ' and '.join('result._values[%d] is values[%d]' % (i, i) for i in range(n + 1))),
-                 ('derived-from-self-iff-narrowing',
-                  '(len(result._valueMap.members) == 1 and result._valueMap.members[0] is self) '
+                 ('derived-from-self-and-its-ancestors-iff-narrowing',
+                  '(len(result._valueMap.members) == 2 and result._valueMap.members[0] is self and '
+                  'result._valueMap.members[1] is ancestor) '
                   'if (%s and self._extensionNarrows) else len(result._valueMap.members) == 0' % (n > 0))],
+        globals={'ancestor': ANCESTOR},
         note='the derived set is registered as a subtype of this one exactly when extension can only narrow '
              '(intersection / exclusion) and this set is not the empty one'))
